@@ -518,6 +518,7 @@ def serialize_units(ctx, src):
         Rule(r'\breturn to_string\(([^;]*)\);', r'{ C04_to_string(ret, \1); return; }', regex=True, count=1)])
     emit(u, HDR % 'float', '{' + cases['3'] + '}', 'JSON::serialize case 3', CC, ret_zero='', desc=D + 'case 3', rules=OPT_RULES + [
         Rule(r'\bstring ret = string_printf\("%g", ([^;]*)\);', r'C04_printf_g(ret, \1);', regex=True, count=1),
+        Rule(r'(?<![\w.>])(?:std::|::)?(floor|ceil|trunc|round)\(', r'verif_\1(', regex=True, count=None),
         Rule(r"\bret\.find\(('(?:\\.|[^'\\])*')\) == string::npos", r'C04_find_c(ret, \1) == VSTR_NPOS', regex=True, count='+'),
         Rule(r'\breturn ret \+ (' + LIT + r');', r'{ C04_append_lit(ret, \1); return; }', regex=True),
         Rule(r'\breturn ret;', 'return;', regex=True, count='+')])
